@@ -29,3 +29,8 @@ impl Value {
     #[verifier::external_body]
     pub fn mark_safe(self) -> (r: Value) ensures r == mark_safe_spec(self) { unimplemented!() }
 }
+// `Value: Clone` (derived in the real source): the clone is an equal value
+impl Clone for Value {
+    #[verifier::external_body]
+    fn clone(&self) -> (r: Self) ensures r == *self { unimplemented!() }
+}
